@@ -647,6 +647,28 @@ func checkC11(ix *index, add addFn) {
 func checkC11Reconn(ix *index, add addFn) {
 	sc := ix.sc
 	cs := ix.causes()
+	// nothing is left running after Disconnect has returned: every transport the
+	// client opened has been closed by then (judged at the end of the run)
+	if ix.judge >= 0 && ix.complete && ix.discAt >= 0 {
+		discRet := -1
+		for k := range sc.Ops {
+			if sc.Ops[k].Kind == "disconnect" && ix.ops[k].inv >= 0 && ix.ops[k].inv <= ix.discAt && ix.ops[k].ret > ix.discAt && ix.ops[k].ret < ix.end() && ix.ops[k].err == "" {
+				discRet = ix.ops[k].ret
+			}
+		}
+		if discRet >= 0 {
+			for k, c := range ix.connInfos() {
+				if c.dialDone < 0 || c.dialErr != "" || c.endAt >= 0 {
+					continue
+				}
+				phase := "other"
+				if ix.discAt > c.dialAt && (c.connack < 0 || ix.discAt < c.connack) {
+					phase = "during-establishment"
+				}
+				add("left-running", fmt.Sprintf("conn %d is still open when the run is judged although Disconnect returned nil at t=%dns (Disconnect was called at t=%dns, the connection was dialled at t=%dns)", k, ix.tr[discRet].T, ix.tr[ix.discAt].T, ix.tr[c.dialAt].T), map[string]string{"phase": phase})
+			}
+		}
+	}
 	// nothing is left running for a dead connection: a transport whose writes
 	// fail while its read side stays silent can only be ended by the client
 	if ix.judge >= 0 && ix.complete {
@@ -673,6 +695,9 @@ func checkC11Reconn(ix *index, add addFn) {
 					closed = true
 					break
 				}
+			}
+			if !closed && ix.discAt >= 0 && ix.discAt < i {
+				continue // a connection left open after Disconnect: reported by left-running
 			}
 			if !closed {
 				// which packet the failed write carried (logged right after it)
